@@ -43,6 +43,63 @@ type Case struct {
 	// nothing) to the starting transaction: funding then starts a few inputs below the point
 	// where the input count needs a three-byte prefix, without 250 inputs being drawn and stored
 	RepPrior int `json:"rep_prior,omitempty"`
+	// Acts[i] is what the supplier callback does, as the caller's own code, during supplier
+	// call i before it returns its batch (or its terminator): nothing, size / fee queries on
+	// the transaction, or an update of the caller's quote object with AddQuote. It never edits
+	// the transaction. Calls beyond len(Acts) do nothing.
+	Acts []Act `json:"acts,omitempty"`
+}
+
+// Act is one callback action.
+type Act struct {
+	Kind string      `json:"kind,omitempty"` // "" | "query" | "quote"
+	Data bool        `json:"data,omitempty"` // quote: the data fee is replaced (else the standard fee)
+	Unit ref.FeeUnit `json:"unit,omitempty"`
+	Tag  int         `json:"tag,omitempty"` // quote: FeeType field of the registered fee object
+}
+
+func actOK(a Act) bool {
+	switch a.Kind {
+	case "", "query":
+		return true
+	case "quote":
+		return a.Unit.Bytes >= 1 && a.Unit.Sat >= 0 && a.Unit.Sat <= 1000000 && a.Unit.Bytes <= 1000000
+	}
+	return false
+}
+
+// actModel applies action i of the case to the model of the quote.
+func actModel(c Case, i int, q *ref.FeeQuote) {
+	if i >= len(c.Acts) || c.Acts[i].Kind != "quote" {
+		return
+	}
+	if c.Acts[i].Data {
+		q.Data = c.Acts[i].Unit
+	} else {
+		q.Std = c.Acts[i].Unit
+	}
+}
+
+// actLib performs action i of the case on the caller's objects.
+func actLib(c Case, i int, q ref.FeeQuote, tx *bt.Tx, fq *bt.FeeQuote) {
+	if i >= len(c.Acts) {
+		return
+	}
+	switch a := c.Acts[i]; a.Kind {
+	case "query":
+		_ = tx.Size()
+		_ = tx.SizeWithTypes()
+		_, _ = tx.EstimateSize()
+		_, _ = tx.EstimateFeesPaid(fq)
+		_, _ = tx.EstimateIsFeePaidEnough(fq)
+		_ = tx.TotalInputSatoshis()
+	case "quote":
+		if a.Data {
+			fq.AddQuote(bt.FeeTypeData, ref.FeeLibFee(bt.FeeTypeData, a.Unit, q.DataRelay, a.Tag))
+		} else {
+			fq.AddQuote(bt.FeeTypeStandard, ref.FeeLibFee(bt.FeeTypeStandard, a.Unit, q.StdRelay, a.Tag))
+		}
+	}
 }
 
 func expand(c Case) Case {
@@ -91,9 +148,15 @@ func amountsOutside(c Case) string {
 	}
 	sz := ref.FeeSizesOf(fin)
 	sz.Std += uint64(160*n + 16)
-	fee, _, _ := ref.FeeCalc(sz, c.Quote)
-	if !fee.Add(fee, ref.FeeSumOut(c.Tx)).IsUint64() {
-		return "outputs plus fee could overflow uint64"
+	q := c.Quote
+	for i := -1; i < len(c.Acts); i++ { // under every state the quote goes through
+		if i >= 0 {
+			actModel(c, i, &q)
+		}
+		fee, _, _ := ref.FeeCalc(sz, q)
+		if !fee.Add(fee, ref.FeeSumOut(c.Tx)).IsUint64() {
+			return "outputs plus fee could overflow uint64"
+		}
 	}
 	return ""
 }
@@ -173,6 +236,7 @@ func inputOf(u U) ref.In {
 type modelResult struct {
 	deficits []*big.Int // argument of every supplier call, in order
 	final    ref.Tx     // meaningful when class == resOK
+	quote    ref.FeeQuote // the rates the quote object holds when Fund returns
 	class    string
 	alts     []string // other acceptable classes (error precedence is not part of the property)
 	handed   int      // number of batches handed out
@@ -183,12 +247,15 @@ func runModel(c Case) (modelResult, error) {
 	cur := c.Tx
 	cur.In = append([]ref.In{}, c.Tx.In...)
 	var r modelResult
-	d, _, err := deficitOf(cur, c.Quote)
+	r.quote = c.Quote
+	d, _, err := deficitOf(cur, r.quote)
 	if err != nil {
 		return r, fmt.Errorf("starting transaction outside the domain: %v", err)
 	}
 	for d.Sign() != 0 {
 		r.deficits = append(r.deficits, d)
+		// the callback runs: whatever it does to the caller's quote counts from here on
+		actModel(c, len(r.deficits)-1, &r.quote)
 		if r.handed == len(c.Batches) {
 			if c.End == "error" {
 				r.class = resSupplierErr
@@ -225,7 +292,7 @@ func runModel(c Case) (modelResult, error) {
 			cur.In = append(cur.In, inputOf(u))
 		}
 		var both bool
-		d, both, err = deficitOf(cur, c.Quote)
+		d, both, err = deficitOf(cur, r.quote)
 		if err != nil {
 			if errors.Is(err, ref.ErrFeeMissingPrev) {
 				r.class = resMissing
@@ -283,6 +350,12 @@ func check(ctx *pbt.Ctx, c Case) error {
 		ctx.Discard("ambiguous extended-marker shape")
 		return nil
 	}
+	for _, a := range c.Acts {
+		if !actOK(a) {
+			ctx.Discard("callback action outside domain")
+			return nil
+		}
+	}
 	if why := amountsOutside(c); why != "" {
 		ctx.Discard(why)
 		return nil
@@ -298,7 +371,7 @@ func check(ctx *pbt.Ctx, c Case) error {
 		ctx.Discard(err.Error())
 		return nil
 	}
-	return judgeFund(ctx, c, want, ref.ToLib(c.Tx), ref.FeeQuoteToLib(c.Quote))
+	return judgeFund(ctx, c, want, ref.ToLib(c.Tx), ref.FeeQuoteToLibTagged(c.Quote))
 }
 
 // judgeFund runs one Fund call on the library object tx with the quote object fq and the
@@ -312,6 +385,7 @@ func judgeFund(ctx *pbt.Ctx, c Case, want modelResult, tx *bt.Tx, fq *bt.FeeQuot
 	handed := 0
 	var handedOut []U
 	afterEnd := 0
+	libQ := c.Quote // relay rates for the fee objects the callback registers
 	next := func(_ context.Context, deficit uint64) ([]*bt.UTXO, error) {
 		got = append(got, deficit)
 		if handed >= len(c.Batches) {
@@ -320,6 +394,7 @@ func judgeFund(ctx *pbt.Ctx, c Case, want modelResult, tx *bt.Tx, fq *bt.FeeQuot
 				afterEnd++
 				return nil, bt.ErrNoUTXO
 			}
+			actLib(c, len(got)-1, libQ, tx, fq)
 			handed++
 			switch c.End {
 			case "exhausted":
@@ -329,6 +404,7 @@ func judgeFund(ctx *pbt.Ctx, c Case, want modelResult, tx *bt.Tx, fq *bt.FeeQuot
 			}
 			return nil, fmt.Errorf("wallet backend: %w", errSupplier)
 		}
+		actLib(c, len(got)-1, libQ, tx, fq)
 		b := c.Batches[handed]
 		handed++
 		out := make([]*bt.UTXO, 0, len(b))
@@ -348,6 +424,7 @@ func judgeFund(ctx *pbt.Ctx, c Case, want modelResult, tx *bt.Tx, fq *bt.FeeQuot
 
 	// ---- labels --------------------------------------------------------------------
 	ctx.Label("result=" + want.class)
+	ctx.Label(feeTagLabel(c.Quote))
 	ctx.Labelf("calls=%d", min(len(want.deficits), 6))
 	ctx.Labelf("prior-inputs=%d", min(len(c.Tx.In), 5))
 	if len(c.Tx.In) < 253 && want.class == resOK && len(want.final.In) >= 253 {
@@ -373,6 +450,17 @@ func judgeFund(ctx *pbt.Ctx, c Case, want modelResult, tx *bt.Tx, fq *bt.FeeQuot
 	}
 	if hasData {
 		ctx.Label("data-outputs")
+	}
+	for i := 0; i < len(want.deficits) && i < len(c.Acts); i++ {
+		switch c.Acts[i].Kind {
+		case "quote":
+			ctx.Label("callback-updates-quote")
+			if i < want.handed {
+				ctx.Label("callback-updates-quote-before-a-later-estimate")
+			}
+		case "query":
+			ctx.Label("callback-queries-transaction")
+		}
 	}
 	two63 := new(big.Int).Lsh(big.NewInt(1), 63)
 	if ref.FeeSumOut(c.Tx).Cmp(two63) >= 0 {
@@ -463,7 +551,7 @@ func judgeFund(ctx *pbt.Ctx, c Case, want modelResult, tx *bt.Tx, fq *bt.FeeQuot
 		if after.Version != before.Version || after.LockTime != before.LockTime {
 			return fmt.Errorf("Fund changed version/locktime %s", desc())
 		}
-		d, _, derr := deficitOf(after, c.Quote)
+		d, _, derr := deficitOf(after, want.quote) // at the rates the caller's quote holds now
 		if derr != nil {
 			return fmt.Errorf("funded transaction cannot be estimated: %v %s", derr, desc())
 		}
@@ -487,6 +575,22 @@ func genUnit(t *rapid.T, label string) ref.FeeUnit {
 	return ref.FeeUnit{Sat: rapid.IntRange(0, 5000).Draw(t, label+"_sat"), Bytes: rapid.IntRange(1, 1000).Draw(t, label+"_bytes")}
 }
 
+// genFeeTag draws what the informational FeeType field of a registered *bt.Fee carries: equal
+// to the key it is registered under, empty, or the other fee type (a copied and edited object).
+func genFeeTag(t *rapid.T, label string) int {
+	return []int{ref.FeeTagKey, ref.FeeTagKey, ref.FeeTagEmpty, ref.FeeTagOther}[rapid.IntRange(0, 3).Draw(t, label)]
+}
+
+func feeTagLabel(q ref.FeeQuote) string {
+	switch {
+	case q.StdTag == ref.FeeTagOther || q.DataTag == ref.FeeTagOther:
+		return "fee-type-field=other-type"
+	case q.StdTag == ref.FeeTagEmpty || q.DataTag == ref.FeeTagEmpty:
+		return "fee-type-field=empty"
+	}
+	return "fee-type-field=key"
+}
+
 func genBadScript(t *rapid.T) pbt.Hex {
 	switch rapid.IntRange(0, 3).Draw(t, "badscript_k") {
 	case 0:
@@ -505,7 +609,8 @@ func genCase(t *rapid.T) Case {
 	var c Case
 	c.Tx.Version = rapid.SampledFrom([]uint32{1, 2, 0xffffffff}).Draw(t, "version")
 	c.Tx.LockTime = rapid.SampledFrom([]uint32{0, 1, 500000000, 0xffffffff}).Draw(t, "locktime")
-	c.Quote = ref.FeeQuote{Std: genUnit(t, "std"), Data: genUnit(t, "data"), StdRelay: genUnit(t, "stdrelay"), DataRelay: genUnit(t, "datarelay")}
+	c.Quote = ref.FeeQuote{Std: genUnit(t, "std"), Data: genUnit(t, "data"), StdRelay: genUnit(t, "stdrelay"), DataRelay: genUnit(t, "datarelay"),
+		StdTag: genFeeTag(t, "stdtag"), DataTag: genFeeTag(t, "datatag")}
 	nout := []int{1, 2, 0, 3, 4, 5}[rapid.IntRange(0, 5).Draw(t, "nout")]
 	for i := 0; i < nout; i++ {
 		var o ref.Out
@@ -589,7 +694,7 @@ func genCase(t *rapid.T) Case {
 		}
 	}
 
-	c.Batches = genBatches(t, c.Tx, c.Quote)
+	c.Batches, c.Acts = genBatches(t, c.Tx, c.Quote)
 	c.End = rapid.SampledFrom([]string{"exhausted", "error", "exhausted-wrapped"}).Draw(t, "end")
 	for i := range stored { // keep the short form; values were assigned on the expanded copy
 		stored[i].PrevSats = c.Tx.In[i].PrevSats
@@ -600,7 +705,24 @@ func genCase(t *rapid.T) Case {
 
 // genBatches draws a supplier history for a transaction that stands as start: values are
 // aimed at the model's running deficit.
-func genBatches(t *rapid.T, start ref.Tx, q ref.FeeQuote) (batches [][]U) {
+func genBatches(t *rapid.T, start ref.Tx, q ref.FeeQuote) (batches [][]U, acts []Act) {
+	// what the callback does during a supplier call, as the caller's own code: mostly nothing;
+	// the running quote q follows, so that later values are aimed at the rates then in force
+	genAct := func() {
+		var a Act
+		switch rapid.IntRange(0, 9).Draw(t, "act") {
+		case 8:
+			a.Kind = "query"
+		case 9:
+			a = Act{Kind: "quote", Data: rapid.Bool().Draw(t, "act_data"), Unit: genUnit(t, "act_unit"), Tag: genFeeTag(t, "act_tag")}
+			if a.Data {
+				q.Data = a.Unit
+			} else {
+				q.Std = a.Unit
+			}
+		}
+		acts = append(acts, a)
+	}
 	cur := start
 	cur.In = append([]ref.In{}, start.In...)
 	// what the supplier may still hand out before the input total would overflow uint64
@@ -610,6 +732,7 @@ func genBatches(t *rapid.T, start ref.Tx, q ref.FeeQuote) (batches [][]U) {
 	}
 	nb := rapid.IntRange(0, 6).Draw(t, "nbatches")
 	for b := 0; b < nb; b++ {
+		genAct()
 		n := []int{1, 2, 0, 3, 4}[rapid.IntRange(0, 4).Draw(t, "batchlen")]
 		batch := []U{}
 		for i := 0; i < n; i++ {
@@ -662,7 +785,11 @@ func genBatches(t *rapid.T, start ref.Tx, q ref.FeeQuote) (batches [][]U) {
 		}
 		batches = append(batches, batch)
 	}
-	return batches
+	genAct() // during the call that reports the end
+	for len(acts) > 0 && acts[len(acts)-1].Kind == "" {
+		acts = acts[:len(acts)-1]
+	}
+	return batches, acts
 }
 
 func TestFund(t *testing.T) {
